@@ -68,6 +68,9 @@ pub struct History {
     pub hook_restored: bool,
     pub stats: SchedStats,
     pub probes: BTreeMap<String, u64>,
+    /// Virtual times at which the runner handed an attempt to its executor (hook H5).
+    #[serde(default)]
+    pub dispatch_times: Vec<u64>,
     pub sched_digest: u64,
     pub sched_trace: Vec<String>,
     pub max_in_callbacks: u32,
@@ -98,20 +101,26 @@ pub fn build_collection(plan: &Plan) -> step::Collection<SimWorld> {
             continue;
         }
         let esc = regex::escape(&st.text);
-        let mut add = |c: step::Collection<SimWorld>, re: String| {
+        let mut add = |c: step::Collection<SimWorld>, re: String, loc: Option<step::Location>| {
             let re = Regex::new(&re).expect("harness: regex");
             match st.kw {
-                Kw::Given => c.given(None, re, world::sim_step),
-                Kw::When => c.when(None, re, world::sim_step),
-                Kw::Then => c.then(None, re, world::sim_step),
+                Kw::Given => c.given(loc, re, world::sim_step),
+                Kw::When => c.when(loc, re, world::sim_step),
+                Kw::Then => c.then(loc, re, world::sim_step),
             }
         };
         match st.def {
             Def::None => {}
-            Def::One => c = add(c, format!("^{esc}( \\w+)?$")),
+            Def::One => c = add(c, format!("^{esc}( \\w+)?$"), None),
+            // two definitions: either two different expressions, or (every other step, by text) the very
+            // same expression registered from two places, as the same attribute in two modules would be
+            Def::Two if st.text.bytes().map(usize::from).sum::<usize>() % 2 == 0 => {
+                c = add(c, format!("^{esc}( \\w+)?$"), None);
+                c = add(c, format!("^{esc}( [a-z0-9]+)?$"), None);
+            }
             Def::Two => {
-                c = add(c, format!("^{esc}( \\w+)?$"));
-                c = add(c, format!("^{esc}( [a-z0-9]+)?$"));
+                c = add(c, format!("^{esc}( \\w+)?$"), Some(step::Location { path: "steps/a.rs", line: 10, column: 1 }));
+                c = add(c, format!("^{esc}( \\w+)?$"), Some(step::Location { path: "steps/b.rs", line: 20, column: 1 }));
             }
         }
     }
@@ -304,6 +313,7 @@ pub fn run_world_a(plan: &Rc<Plan>) -> Result<History, String> {
         hook_restored,
         stats: core.stats.borrow().clone(),
         probes: core.probes.borrow().iter().map(|(k, v)| ((*k).to_owned(), *v)).collect(),
+        dispatch_times: core.dispatch_times.borrow().clone(),
         sched_digest: core.sched_digest.get(),
         sched_trace: core.sched_trace.borrow().clone(),
         max_in_callbacks: ctx.max_in_callbacks.get(),
